@@ -104,6 +104,8 @@ def oracle(scn, outs):
     for line, o in zip(scn.lines, outs):
         t = line.split()
         op = t[0]
+        if o == "poisoned":
+            break      # the library called the abort handler: nothing more is asked of it in this process state
         if op == "w.new":
             wbits = ""
         elif op == "w.put":
